@@ -463,7 +463,9 @@ func valuesAt(v ssa.Value, site ssa.Instruction) []ssa.Value {
 //     every input that gives v the value truth must come in from a block that is reached only over
 //     edges on which base holds.
 //
-// Anything else (a φ input that is not a constant, a cell with several stores) is not an implication.
+//   - a boolean φ input that is not a constant but itself implies base in this sense (`a || b`).
+//
+// Anything else (an integer φ input that is not a constant, a cell with several stores) is not an implication.
 func boolImplies(v ssa.Value, truth bool, base func(v ssa.Value, truth bool) bool) bool {
 	return boolImplies0(v, truth, base, 0)
 }
@@ -480,11 +482,15 @@ func boolImplies0(v ssa.Value, truth bool, base func(v ssa.Value, truth bool) bo
 		return ok && boolImplies0(c, t, base, depth+1)
 	}
 	// the inputs of φ that make `hit` true arrive only over base edges
-	phiInputs := func(phi *ssa.Phi, hit func(e ssa.Value) (is, known bool)) bool {
+	phiInputs := func(phi *ssa.Phi, whole bool, hit func(e ssa.Value) (is, known bool)) bool {
 		fn := phi.Parent()
 		for k, e := range phi.Edges {
 			is, known := hit(e)
 			if !known {
+				// an input that is not a constant: v has the value only if the input has it
+				if _, isK := e.(*ssa.Const); !isK && whole && boolImplies0(e, truth, base, depth+1) {
+					continue
+				}
 				return false
 			}
 			if !is {
@@ -511,7 +517,7 @@ func boolImplies0(v ssa.Value, truth bool, base func(v ssa.Value, truth bool) bo
 			}
 		}
 	case *ssa.Phi:
-		return phiInputs(x, func(e ssa.Value) (bool, bool) {
+		return phiInputs(x, true, func(e ssa.Value) (bool, bool) {
 			k, ok := constBool(e)
 			return k == truth, ok
 		})
@@ -539,7 +545,7 @@ func boolImplies0(v ssa.Value, truth bool, base func(v ssa.Value, truth bool) bo
 		if !isPhi {
 			return false
 		}
-		return phiInputs(phi, func(e ssa.Value) (bool, bool) {
+		return phiInputs(phi, false, func(e ssa.Value) (bool, bool) {
 			c, ok := constInt(e)
 			return ((c == k) == (x.Op == token.EQL)) == truth, ok
 		})
